@@ -54,12 +54,13 @@ def life_stage(work, res, tier, prefixes, replay=None):
     nsh = max(1, min(vlib.NCPU, 16, total // 50 + 1))
     # a panic in a background goroutine kills the process: journal + resume
     pend = [{"i": i, "resume": 0, "tries": 0} for i in range(nsh)]
+    believed = [False]      # a hang has been confirmed on its own: later stalls (of any shard) are believed at once
     while pend:
         procs = []
         for p in pend:
             e = vlib.goenv()
             e.update({"VERIF_CASES": cases, "VERIF_TRACE": os.path.join(d, "t%d.ndjson" % p["i"]),
-                      "VERIF_HANG_S": "10" if p.get("hangs") else "45",
+                      "VERIF_HANG_S": "10" if believed[0] else "45",
                       "VERIF_JOURNAL": os.path.join(d, "j%d" % p["i"]), "VERIF_RESUME": str(p["resume"]),
                       "VERIF_SHARD": "%d/%d" % (p["i"], nsh), "VERIF_SEED": str(vlib.SEED)})
             out = open(os.path.join(d, "o%d.txt" % p["i"]), "w")
@@ -82,7 +83,7 @@ def life_stage(work, res, tier, prefixes, replay=None):
                 # a hang is only believed when the schedule hangs again on its own (once a shard has a confirmed hang,
                 # later stalls of that shard are believed at once, and after three the rest of the shard is left out:
                 # the verdict is there, the remaining schedules would each cost the watchdog's patience)
-                if not p.get("hangs") and not confirm_hang(work, binp, cases, case, d):
+                if not believed[0] and not confirm_hang(work, binp, cases, case, d):
                     log("lifecycle harness shard %d stalled on schedule %d but the schedule completes on its own: "
                         "no verdict from it; resuming" % (p["i"], case))
                     p["resume"] = case
@@ -100,6 +101,7 @@ def life_stage(work, res, tier, prefixes, replay=None):
             log("lifecycle harness shard %d died on schedule %d (%s); resuming" % (p["i"], case, rec["results"][0]["err"]))
             p["resume"] = case
             if why == "hang":
+                believed[0] = True
                 p["hangs"] = p.get("hangs", 0) + 1
                 if p["hangs"] >= 3:
                     log("lifecycle harness shard %d: three schedules hung; the rest of this shard is not executed" % p["i"])
